@@ -655,7 +655,7 @@ ASSUMPTIONS = ['Threads switch and asynchronous exceptions are delivered only at
                'Functions are finite and absorb the interrupt at most once; a BaseException that kills the pool worker is '
                'only held to liveness / no-leak / no-cross-talk (either a re-raise or a timeout is accepted).',
                'Simulation samples schedules; only the expiry position for zero-duration programs is enumerated.']
-WALL_BUDGET = {'quick': 70.0, 'thorough': 1200.0}
+WALL_BUDGET = {'quick': 70.0, 'thorough': 600.0}
 
 
 def jobs(tier, batch_seed):
@@ -663,3 +663,78 @@ def jobs(tier, batch_seed):
     if tier == 'thorough':
         return std_jobs([('generate_enum', 1500), ('generate', 400000)], batch_seed)
     return std_jobs([('generate_enum', 60), ('generate', 12000)], batch_seed)
+
+
+# ---------------------------------------------------------------------------------------------------------------------
+# fidelity of the E1 stubs: tie-free scenarios under E1 and on real threads with the real clock must agree
+
+def fidelity():
+    """Runs a fixed set of scenarios whose outcome does not depend on ties (far below / far above the limit, raising,
+    absorbing once, native block, worker death) (a) under E1 and (b) on real threads, real ThreadPool, real clock;
+    the outcome kinds must agree. Returns a list of (name, e1 outcome, real outcome, agree)."""
+    import time
+    import multiprocessing.pool as mpool
+    scen = [
+        ('returns-fast', 0.4, [['work', 0.05, 1], ['ret', 1]]),
+        ('raises-fast', 0.4, [['work', 0.05, 1], ['raise', 'value']]),
+        ('python-loop-far-above', 0.3, [['work', 1.2, 8], ['ret', 2]]),
+        ('native-block-far-above', 0.3, [['native', 1.0], ['ret', 3]]),
+        ('absorbs-once-then-returns', 0.3, [['swallow', 'base', [['work', 1.0, 8], ['ret', 4]]], ['work', 0.1, 1], ['ret', 5]]),
+        ('worker-death', 0.3, [['raise', 'base']]),
+        ('self-timeout', 0.4, [['raise', 'timeout']]),
+    ]
+    out = []
+    for name, limit, prog in scen:
+        tr = {'property': PROPERTY, 'engine': ENGINE, 'seed': 0,
+              'config': {'policy': ['uniform'], 'arm_pool': False, 'step_cap': 20000, 'time_cap': 10000.0},
+              'calls': [{'limit': limit, 'prog': prog}], 'force_expiry': None, 'sched_seed': 7, 'schedule': None}
+        sim, ctx, outcomes = run_scenario(tr)
+        e1 = outcomes[0][0] + (':' + outcomes[0][1] if outcomes[0][0] == 'exc' else '')
+        out.append([name, e1, None, None])
+    # real execution: the shims are removed, the same programs run with time.sleep / busy loops
+    st.uninstall()
+    st.deactivate()
+
+    def real_prog(prog, state):
+        for step in prog:
+            op = step[0]
+            if op == 'work':
+                t_end = time.monotonic() + step[1]
+                while time.monotonic() < t_end:
+                    pass
+            elif op == 'native':
+                time.sleep(step[1])
+            elif op == 'ret':
+                return f'v:{step[1]}'
+            elif op == 'raise':
+                raise {'value': ValueError, 'timeout': TimeoutError, 'base': WorkerDeath}[step[1]]('e')
+            elif op == 'swallow':
+                try:
+                    r = real_prog(step[2], state)
+                    if r is not None:
+                        return r
+                except BaseException as e:
+                    if not _is_interrupt(e):
+                        raise
+                    state['absorbed'] = True
+        return None
+
+    import threading as _t
+    saved_hook = _t.excepthook
+    _t.excepthook = lambda a: None
+    try:
+        for row, (name, limit, prog) in zip(out, scen):
+            state = {}
+            try:
+                v = _tl.run_timeout(limit, lambda: real_prog(prog, state))
+                real = 'ret'
+            except TimeoutError:
+                real = 'exc:TimeoutError'
+            except BaseException as e:
+                real = 'exc:' + type(e).__name__
+            row[2] = real
+            row[3] = (row[1] == real)
+    finally:
+        _t.excepthook = saved_hook
+        st.install()
+    return out
